@@ -12,7 +12,8 @@
   against the explicit representation (FcProofs/Props/C16.lean).
 -/
 import FcModel.MeshEqual
-namespace Fc
+namespace Fc.C16
+open Fc Fc.C03
 
 /-! ### index arithmetic of `_StructuredMeshBase` -/
 
@@ -34,8 +35,8 @@ def pickCellType (tbl : List String) (ext : List Nat) : String :=
 
 /-- corner reordering applied when the cell type is quad / hexahedron -/
 def reorderRow (ct : String) (row : List Nat) : List Nat :=
-  if ct == "QUAD" then Gen.reorderQuadPixel.map (row.getD · 0)
-  else if ct == "HEXAHEDRON" then Gen.reorderHexVoxel.map (row.getD · 0)
+  if ct == "QUAD" then Gen.C16.reorderQuadPixel.map (row.getD · 0)
+  else if ct == "HEXAHEDRON" then Gen.C16.reorderHexVoxel.map (row.getD · 0)
   else row
 
 /-- `connectivity(cell_type)` for the mesh's own cell type (dimension 1, 2, 3) -/
@@ -94,7 +95,7 @@ def RectGrid.ord (g : RectGrid) (d : Nat) : List Int := fixOrd (g.ords.getD d []
 def rectPoints (xs ys zs : List Int) : List (List Int) :=
   zs.flatMap fun z => ys.flatMap fun y => xs.map fun x => [x, y, z]
 
-def RectGrid.cellType (g : RectGrid) : String := pickCellType Gen.rectilinearCellTypes g.ext
+def RectGrid.cellType (g : RectGrid) : String := pickCellType Gen.C16.rectilinearCellTypes g.ext
 
 def RectGrid.toMesh (g : RectGrid) : Mesh :=
   ⟨3, rectPoints (g.ord 0) (g.ord 1) (g.ord 2), [(g.cellType, structConn g.ext g.cellType)]⟩
@@ -129,7 +130,7 @@ structure StructGrid where
   abs : Nat
 deriving Repr, DecidableEq
 
-def StructGrid.cellType (g : StructGrid) : String := pickCellType Gen.structuredCellTypes g.ext
+def StructGrid.cellType (g : StructGrid) : String := pickCellType Gen.C16.structuredCellTypes g.ext
 
 def StructGrid.toMesh (g : StructGrid) : Mesh :=
   ⟨g.dim, g.points, [(g.cellType, structConn g.ext g.cellType)]⟩
@@ -143,7 +144,7 @@ def StructGrid.ok (g : StructGrid) : Bool :=
 /-- `StructuredMesh.equals(other)` for a structured `other` -/
 def structEquals (a b : StructGrid) : Verdict :=
   if !basicGridEq a.ext b.ext then .ok false
-  else .ok (fuzzyOk a.rel a.abs a.toMesh.pointArr b.toMesh.pointArr)
+  else .ok (fuzzyOk a.rel a.abs (pointArr a.toMesh) (pointArr b.toMesh))
 
 /-! ### ImageMesh -/
 
@@ -191,7 +192,7 @@ def ImageGrid.points (g : ImageGrid) : Option (List (List Int)) :=
   let ps := (locations (g.ext.map (· + 1))).map (imagePoint g)
   if ps.all Option.isSome then some (ps.map (·.getD [])) else none
 
-def ImageGrid.cellType (g : ImageGrid) : String := pickCellType Gen.imageCellTypes g.ext
+def ImageGrid.cellType (g : ImageGrid) : String := pickCellType Gen.C16.imageCellTypes g.ext
 
 def ImageGrid.toMesh (g : ImageGrid) : Option Mesh :=
   g.points.map fun ps => ⟨3, ps, [(g.cellType, structConn g.ext g.cellType)]⟩
@@ -244,8 +245,8 @@ def AnyMesh.tol : AnyMesh → Nat × Nat
 
 /-- the decidable well-formedness hypothesis under which the model speaks for one object -/
 def AnyMesh.ok : AnyMesh → Bool
-  | .explicit m => m.mesh.wfEq
-  | .permuted m => m.mesh.wfEq
+  | .explicit m => (wfEq m.mesh)
+  | .permuted m => (wfEq m.mesh)
   | .rect g => g.ok
   | .struct g => g.ok
   | .image g => g.ok
@@ -281,4 +282,4 @@ def equals : AnyMesh → AnyMesh → Verdict
   | .struct a, .struct b => structEquals a b
   | a, b => viaMeshEqual a.view b.view
 
-end Fc
+end Fc.C16
